@@ -39,7 +39,8 @@ META = dict(
            '(public extension point: subclassing PixelAperture)',
            'numpy facade (vf/facade.py) for np.sqrt/np.asanyarray on object '
            'arrays'],
-    outside=['sky apertures / WCS conversion (compiled wcslib)',
+    outside=['the WCS transformation itself (compiled wcslib): sky apertures '
+             'are only compared with their own to_pixel(wcs) image',
              'Quantity arithmetic', '+-inf'],
     min_obligations=50,
 )
@@ -501,15 +502,73 @@ def _table_check(form, mi, names, as_list, H=4, W=5):
     return None
 
 
+def _sky_check(kind, mi):
+    """Sky apertures give the same numbers as their to_pixel(wcs) image."""
+    import astropy.units as u
+    from astropy.wcs import WCS
+    from photutils.aperture import (SkyCircularAnnulus, SkyCircularAperture,
+                                    SkyEllipticalAperture,
+                                    SkyRectangularAperture,
+                                    aperture_photometry)
+    H, W = 24, 30
+    d = np.array([[((3 * y + 7 * x) % 11) + 0.25 * y - 0.1 * x
+                   for x in range(W)] for y in range(H)], float)
+    e = 0.5 + (np.arange(W)[None, :] % 4 + np.arange(H)[:, None] % 3) / 5
+    m = np.zeros((H, W), bool)
+    m[10, 12] = True
+    w = WCS(naxis=2)
+    w.wcs.crpix = [12.0, 9.0]
+    w.wcs.cdelt = [-0.0002, 0.0002]
+    w.wcs.crval = [150.0, 2.0]
+    w.wcs.ctype = ['RA---TAN', 'DEC--TAN']
+    w.wcs.pc = [[0.9, -0.1], [0.1, 0.9]]
+    pos = w.pixel_to_world([11.3, 20.1, 2.2, 60.0], [9.4, 15.7, 20.5, 5.0])
+    scale = 0.0002 * 3600 * u.arcsec
+    ap = dict(circ=lambda: SkyCircularAperture(pos, 3.1 * scale),
+              ann=lambda: SkyCircularAnnulus(pos, 1.5 * scale, 4.2 * scale),
+              ell=lambda: SkyEllipticalAperture(pos, 4 * scale, 2 * scale,
+                                                theta=30 * u.deg),
+              rect=lambda: SkyRectangularAperture(pos, 5 * scale, 3 * scale,
+                                                  theta=70 * u.deg))[kind]()
+    method, sp = TMETHODS[mi]
+    kw = dict(method=method, subpixels=sp)
+    with warnings.catch_warnings():
+        warnings.simplefilter('ignore')
+        t1 = aperture_photometry(d, ap, error=e, mask=m, wcs=w, **kw)
+        pix = ap.to_pixel(w)
+        t2 = aperture_photometry(d, pix, error=e, mask=m, **kw)
+    for c in ('aperture_sum', 'aperture_sum_err', 'xcenter', 'ycenter'):
+        a = np.asarray(getattr(t1[c], 'value', t1[c]), float)
+        b = np.asarray(getattr(t2[c], 'value', t2[c]), float)
+        if not np.array_equal(a, b, equal_nan=True):
+            return f'sky {kind}: column {c} {a} != to_pixel image {b}'
+    if 'sky_center' not in t1.colnames:
+        return 'sky_center column missing for a sky aperture'
+    return None
+
+
 def _run_table(case):
     """Call-form / table-assembly consistency.  The data are concrete floats;
     the *call form, method and aperture selection* are solver-chosen finite
     variables, enumerated exhaustively (all-SAT)."""
-    groups = case['groups']
+    groups = case.get('groups')
     cnt = dict(n=0)
     samples = []
 
     def fn(ctx):
+        if case.get('sky'):
+            kind = ctx.choice('sky', ['circ', 'ann', 'ell', 'rect'])
+            mi = ctx.choice('method', len(TMETHODS))
+            ctx.stats.obligations += 1
+            cnt['n'] += 1
+            msg = _sky_check(kind, mi)
+            if msg is None:
+                ctx.stats.unsat += 1
+            else:
+                ctx.stats.sat += 1
+                ctx.find('table:sky', msg, ctx.witness(),
+                         params=dict(kind='table', sky=kind, mi=mi))
+            return
         form = ctx.choice('form', FORMS)
         mi = ctx.choice('method', len(TMETHODS))
         g = ctx.choice('group', len(groups))
@@ -583,6 +642,7 @@ def cases(tier, seed):
     cs.append(dict(kind='table', name='table-forms-b', groups=[
         ['rect', 'rect'], ['cann-multi', 'cann-multi'],
         ['circ-out', 'circ-out'], ['circ-far', 'circ-far']]))
+    cs.append(dict(kind='table', name='table-sky-apertures', sky=True))
     real((3, 3), 'circ-in', ('exact', 5), 'upto1', twin='shift')
     real((3, 3), 'rect', ('center', 5), 'upto1', twin='nomask')
     if tier == 'thorough':
@@ -605,6 +665,9 @@ def replay(f):
     from photutils.aperture import aperture_photometry
     w = f['witness']
     p = f['params']
+    if p['kind'] == 'table' and p.get('sky'):
+        msg = _sky_check(p['sky'], p['mi'])
+        return msg is not None, str(msg)
     if p['kind'] == 'table':
         msg = _table_check(p['form'], p['mi'], p['names'], p['as_list'])
         return msg is not None, str(msg)
